@@ -22,6 +22,7 @@ import (
 	"pgregory.net/rapid"
 	"verif/harness/hio"
 	"verif/harness/netkit"
+	"verif/harness/ref"
 	"verif/harness/probe"
 	"verif/harness/vt"
 )
@@ -313,11 +314,28 @@ func checkCase(c Case) (verr error) {
 	shedCalls := 0
 	// raw phase: frames of every non-call type addressed to a live method
 	rawTags := map[string]uint8{}
+	foreign := map[uint32]string{}
 	for i, typ := range c.RawTypes {
 		tg := targets[i%len(targets)]
 		tag := fmt.Sprintf("raw-type-%d", typ)
 		rawTags[tag] = typ
 		raw.Send(netkit.Frame{Type: typ, ID: raw.NextID(), Service: tg.svcID, Object: tg.objectID, Action: 100, Payload: netkit.StringPayload(tag)})
+		// the same kind of frame for the authentication service (a method written
+		// by hand, authenticate, with credentials it accepts). Capability and
+		// cancel frames are left out: exchanging capability maps is what the
+		// protocol has the first kind for, and what the service makes of them is
+		// not this property's business. A reply, error, event or cancelled frame
+		// which comes back answered with a reply has run the method.
+		if typ == netkit.Reply || typ == netkit.Error || typ == netkit.Event || typ == 8 {
+			capmap := netkit.CapMap(map[string]ref.Dyn{"auth_user": netkit.Str("u"), "auth_token": netkit.Str("t")})
+			fr := netkit.Frame{Type: typ, ID: raw.NextID(), Service: 0, Object: 0, Action: 8, Payload: capmap}
+			foreign[fr.ID] = fmt.Sprintf("type %d to the authentication service", typ)
+			raw.Send(fr)
+		}
+	}
+	if len(c.RawTypes) > 0 {
+		// a barrier through the authentication service's mailbox
+		raw.Authenticate("u", "t", bound)
 	}
 	// barriers: one call per object on the raw connection (mailbox FIFO: once
 	// it is answered, every earlier frame for that object has been processed)
@@ -412,6 +430,9 @@ func checkCase(c Case) (verr error) {
 	}
 	// nothing is ever sent back for a post; nothing for the foreign frames except errors
 	for _, f := range raw.Frames() {
+		if what, ok := foreign[f.ID]; ok && f.Type == netkit.Reply {
+			return vt.Violationf("C04:non-call-type-executes:authenticate", "a frame which is neither a call nor a post (%s) ran authenticate and was answered with a reply: %v", what, f)
+		}
 		if tag, ok := postIDs.Load(f.ID); ok {
 			return vt.Violationf("C04:post-answered", "post %v received a response frame %v", tag, f)
 		}
